@@ -210,9 +210,13 @@ class SyncBackend(NetworkBackend):
                 timeout,
                 source_address=source_address,
             )
-            for option in socket_options:
-                sock.setsockopt(*option)  # pragma: no cover
-            sock.setsockopt(socket.IPPROTO_TCP, socket.TCP_NODELAY, 1)
+            try:
+                for option in socket_options:
+                    sock.setsockopt(*option)  # pragma: no cover
+                sock.setsockopt(socket.IPPROTO_TCP, socket.TCP_NODELAY, 1)
+            except Exception as exc:  # pragma: nocover
+                sock.close()
+                raise exc
         return SyncStream(sock)
 
     def connect_unix_socket(
@@ -234,8 +238,12 @@ class SyncBackend(NetworkBackend):
         }
         with map_exceptions(exc_map):
             sock = socket.socket(socket.AF_UNIX, socket.SOCK_STREAM)
-            for option in socket_options:
-                sock.setsockopt(*option)
-            sock.settimeout(timeout)
-            sock.connect(path)
+            try:
+                for option in socket_options:
+                    sock.setsockopt(*option)
+                sock.settimeout(timeout)
+                sock.connect(path)
+            except Exception as exc:
+                sock.close()
+                raise exc
         return SyncStream(sock)
